@@ -693,10 +693,15 @@ class Scoped:
     def __init__(self, chk):
         self.chk = chk
 
-    def obligation(self, name, *a, **k):
+    def obligation(self, name, function, backend, result, *a, **k):
         if not name.startswith(PID + '.'):
             name = PID + '.' + name
-        return self.chk.obligation(name, *a, **k)
+        if '.hint_' in name and result == report.VIOLATED:
+            # a refuted proof hint is a failed proof step, not a refutation of the property: the obligation it serves decides
+            result = report.UNDECIDED
+            k = {'detail': {'reason': 'proof hint refuted (the hinted instance no longer holds): the main obligation decides', 'model': str(k.get('model', ''))[:400]}}
+            a = a[:1]
+        return self.chk.obligation(name, function, backend, result, *a, **k)
 
     def __getattr__(self, a):
         return getattr(self.chk, a)
